@@ -1,11 +1,15 @@
 package checks
 
 import (
+	"bytes"
+	"fmt"
+	"strings"
 	"unicode/utf8"
 
 	"visim/app"
 	"visim/core"
 	"visim/examples"
+	"visim/tape"
 	"visim/world"
 )
 
@@ -23,9 +27,9 @@ func init() {
 			"comparison stops at the first request that stops or fails (Exec after stop is documented as undefined)",
 			"engine.WithFirst is not configured here: the pre-VM function runs once per engine instance by design, so its invocations (and the last-value it leaves behind) differ between a long-lived engine and an engine per request; C06, C08 and C20 explore it",
 		},
-		Real:       append(append([]string{}, realAll...), "db/fs (compiled against the simulated os)", "db/postgres"),
-		Stub:       append(append([]string{}, stubAll...), "OS filesystem (simfs)", "Postgres server (pgfake)"),
-		FaultKinds: []string{"restart", "ext_error", "client_garbage", "template_lookup_error"},
+		Real:       append(append([]string{}, realAll...), "db/fs (compiled against the simulated os)", "db/postgres", "engine.Loop (fourth twin)"),
+		Stub:       append(append([]string{}, stubAll...), "OS filesystem (simfs)", "Postgres server (pgfake)", "client connection of engine.Loop (chunked reader, recording writer)"),
+		FaultKinds: []string{"restart", "ext_error", "client_garbage", "template_lookup_error", "connection_closed", "connection_error"},
 	})
 }
 
@@ -103,6 +107,7 @@ func runC07(c *core.Ctx) *core.Outcome {
 		o.Probes["db_resource_stack"]++
 	}
 	var inputs [][]byte
+	var tplFaults []bool
 	badSaved := false
 	okReq := 0
 	restartsWithState := 0
@@ -128,10 +133,12 @@ func runC07(c *core.Ctx) *core.Outcome {
 			}
 		}
 		mFresh := t.Chance(1, 2)
-		if t.Chance(1, 14) {
-			// the template store is down for this request - for all three twins alike
+		tf := t.Chance(1, 14)
+		if tf {
+			// the template store is down for this request - for all twins alike
 			L.FailTemplateThisRequest, P.FailTemplateThisRequest, M.FailTemplateThisRequest = true, true, true
 		}
+		tplFaults = append(tplFaults, tf)
 		t.End()
 		inputs = append(inputs, in)
 		sl := L.Request(in, false)
@@ -207,6 +214,27 @@ func runC07(c *core.Ctx) *core.Outcome {
 			o.Probes["page_with_error_prefix"]++
 		}
 	}
+	// fourth twin: the same inputs through the library's own engine.Loop, an engine per connection,
+	// lines read in chunks from a simulated connection that is closed or fails at drawn points
+	if o.V == nil && len(L.Steps) >= 2 && t.Chance(1, 3) {
+		wx := world.New(a, cfg)
+		wx.UseBackend()
+		defer wx.Close()
+		if dbStack {
+			if err := wx.UseDbResource(); err != nil {
+				panic("cannot build DbResource: " + err.Error())
+			}
+		}
+		X := wx.NewSession("sess", true)
+		if v := loopTwin(t, o, L, X, inputs, tplFaults); v != nil {
+			o.V = v
+			if o.Scenario == nil {
+				o.Scenario = map[string]interface{}{"long_lived": scenario(wl, nil), "loop": scenario(wx, nil)["sessions"]}
+			}
+			return finish(o, wl, wp, wm, wx)
+		}
+		o.Probes["loop_twin_run"]++
+	}
 	o.Nontrivial = okReq >= 3 && restartsWithState >= 1
 	if c.WantScenario || o.V != nil {
 		o.Scenario = map[string]interface{}{"long_lived": scenario(wl, nil), "persisted": scenario(wp, nil)["sessions"], "mixed": scenario(wm, nil)["sessions"]}
@@ -230,4 +258,69 @@ func nonUTF8Cached(s *world.Sess) bool {
 		}
 	}
 	return false
+}
+
+// loopTwin serves the inputs the long-lived twin L has handled through engine.Loop, cut into
+// connections at drawn points, and compares what reaches the writer with L's pages.
+func loopTwin(t *tape.Tape, o *core.Outcome, L, X *world.Sess, inputs [][]byte, tplFaults []bool) *core.Violation {
+	n := len(L.Steps)
+	if n > len(inputs) {
+		n = len(inputs)
+	}
+	// Loop trims white space off every line: only inputs that survive that are the same request
+	for i := 1; i < n; i++ {
+		if string(bytes.TrimSpace(inputs[i])) != string(inputs[i]) || bytes.IndexByte(inputs[i], '\n') >= 0 {
+			n = i
+			break
+		}
+	}
+	pos := 0
+	t.Begin("loop")
+	defer t.End()
+	for pos < n {
+		segLen := 1 + t.Int(n-pos)
+		failAt := -1
+		if segLen > 1 && t.Chance(1, 5) {
+			failAt = 1 + t.Int(segLen-1) // the connection fails before this line arrives
+			segLen = failAt
+			o.Faults["connection_error"]++
+		} else if pos+segLen < n {
+			o.Faults["connection_closed"]++
+		}
+		res := X.ServeLoop(inputs[pos:pos+segLen], tplFaults[pos:pos+segLen], func() int { return t.Int(6) }, failAt)
+		o.Faults["restart"]++
+		if res.Panic != "" {
+			o.Probes["foreign_panic"]++
+			return nil
+		}
+		if res.Consumed == 0 {
+			return &core.Violation{Class: "twin-diverge:long-lived/loop", Step: pos, Msg: fmt.Sprintf("connection starting at request %d: engine.Loop served nothing (%s)", pos, res.Err)}
+		}
+		for j := range res.Steps {
+			i := pos + j
+			ls, xs := &L.Steps[i], &res.Steps[j]
+			o.Counts["requests"]++
+			last := j == len(res.Steps)-1
+			lFail := ls.ExecErr != "" || ls.FlushErr != ""
+			xFail := last && res.Err != "" && !(failAt >= 0 && j == segLen-1 && strings.Contains(res.Err, "cannot read input"))
+			switch {
+			case lFail != xFail:
+				return &core.Violation{Class: "twin-diverge:long-lived/loop", Step: i, Msg: fmt.Sprintf("request %d input %s: long-lived engine exec=%q flush=%q, engine.Loop returned %q", i, short(ls.Input), ls.ExecErr, ls.FlushErr, res.Err)}
+			case !lFail && ls.Out != xs.Out:
+				return &core.Violation{Class: "twin-diverge:long-lived/loop", Step: i, Msg: fmt.Sprintf("request %d input %s: long-lived engine delivered %s, engine.Loop wrote %s", i, short(ls.Input), short(ls.Out), short(xs.Out))}
+			case !lFail && !ls.Cont != (last && res.Err == "" && !xs.Cont && j < segLen-1 || last && !ls.Cont && !xs.Cont):
+				if !ls.Cont && xs.Cont {
+					return &core.Violation{Class: "twin-diverge:long-lived/loop", Step: i, Msg: fmt.Sprintf("request %d input %s: the long-lived engine reports stop, engine.Loop went on reading", i, short(ls.Input))}
+				}
+				if ls.Cont && last && j < segLen-1 && res.Err == "" {
+					return &core.Violation{Class: "twin-diverge:long-lived/loop", Step: i, Msg: fmt.Sprintf("request %d input %s: the long-lived engine reports continue, engine.Loop stopped with %d lines unread", i, short(ls.Input), segLen-1-j)}
+				}
+			}
+			if lFail && !ls.Cont || !ls.Cont {
+				return nil // L's comparison ends here as well
+			}
+		}
+		pos += res.Consumed
+	}
+	return nil
 }
